@@ -157,6 +157,10 @@ impl<'a> Ctl<'a> {
     fn host_trap(&mut self, f: &Func, k: usize) -> bool {
         let trap = mh::with(|h| h.trap.clone());
         if let Some((kind, what)) = trap {
+            if kind == mh::TrapKind::TaskReturnTwice || what.starts_with("task.cancel called although") {
+                // reported by the task accounting with its own signature (task-return:twice / with-cancel, task-cancel:unrequested)
+                return false;
+            }
             let tail: Vec<String> = mh::with(|h| h.log.iter().rev().take(25).map(|e| rt_host::trace::fmt_ev(e)).collect::<Vec<_>>().into_iter().rev().collect());
             self.fail(f, k, &format!("rust-async:host-trap:{}", kind.name()), &format!("the mock component-model host trapped: {what}; last events: {tail:?}"));
             self.stop = true;
